@@ -44,18 +44,31 @@ def r1_no_lossy(ctx):
         if "encoding" in F.features:
             b = ctx.body(F, "encoding::decode", "R1")
             if b is not None:
-                ok = False
+                ok = 0
+                bad = []
                 for p in ctx.paths(b):
                     r = ret_of(p)
-                    if r is not None and r[0] == "call" and name_is(r[2], "ok_or") and call_is(r[3][0], "decode_without_bom_handling_and_without_replacement") and r[3][1][0] == "agg" and r[3][1][2] == "Other":
-                        ok = True
-                ctx.ob("R1", "decode", ok, "decode() = decode_without_bom_handling_and_without_replacement(..).ok_or(EncodingError::Other)", config=cfg)
+                    ran = [("call", c[1], c[2], c[3]) for c in calls(p) if name_is(c[2], "decode_without_bom_handling_and_without_replacement")]
+                    if r is None or not ran:
+                        continue
+                    d = decision_on(p, lambda t: t[0] == "discr" and t[1] == ran[0])
+                    rv = describe_ret(r, 1)[0]
+                    if d == 1:
+                        good = rv[:1] == ("Ok",) and has_subterm(r, lambda s: s[0] == "pl" and s[1] == ran[0])
+                    elif d == 0:
+                        good = rv[:2] == ("Err", "Other")
+                    else:
+                        good = r[0] == "call" and name_is(r[2], "ok_or", "ok_or_else") and r[3][0] == ran[0]
+                    ok += 1 if good else 0
+                    if not good:
+                        bad.append(sym.show(r, 2)[:80])
+                ctx.ob("R1", "decode", ok >= 1 and not bad, "decode(): the non-replacing decoder's Some(text) is Ok(text), its None (malformed input) is Err(EncodingError::Other): %s" % bad, config=cfg)
                 # every returning path decodes with the encoding it was given; a shortcut is only sound under `encoding == UTF_8`
                 for p in ctx.paths(b):
                     r = ret_of(p)
                     if r is None:
                         continue
-                    through = has_subterm(r, lambda s: call_is(s, "decode_without_bom_handling_and_without_replacement") and strip_wrappers(s[3][0])[0] == "arg" and strip_wrappers(s[3][0])[2] == "encoding")
+                    through = any(name_is(c[2], "decode_without_bom_handling_and_without_replacement") and strip_wrappers(c[3][0])[0] == "arg" and strip_wrappers(c[3][0])[2] == "encoding" for c in calls(p))
                     utf8 = any(e[0] == "switch" and e[2][0] == "call" and name_is(e[2][2], "eq", "ne") and "UTF_8" in str(e[2]) and ((e[3] != 0) == name_is(e[2][2], "eq")) for e in p)
                     if not through:
                         ctx.ob("R1", "decode:shortcut", utf8 and describe_ret(r, 0)[0][:1] in (("Ok",), ("Err",)),
@@ -227,7 +240,7 @@ def r4_declaration(ctx):
         e = ctx.body(F, "events::BytesDecl::encoding", "R4")
         if e is not None:
             lit = [bytes_literal(a) for p in ctx.paths(e) for c in calls(p) if name_is(c[2], "try_get_attribute") for a in c[3][1:]]
-            ctx.ob("R4", "BytesDecl::encoding", lit == [b"encoding"], "reads the `encoding` pseudo-attribute: %s" % lit, config=cfg)
+            ctx.ob("R4", "BytesDecl::encoding", set(lit) == {b"encoding"}, "reads the `encoding` pseudo-attribute: %s" % sorted(set(lit), key=str), config=cfg)
 
 
 RULES = [("R1", r1_no_lossy), ("R2", r2_machine), ("R3", r3_bom), ("R4", r4_declaration)]
